@@ -1,6 +1,7 @@
 import DoltVerif.Lemmas.ProllyMergeSendR2
 import DoltVerif.Lemmas.ProllyMergeAdd1
 import DoltVerif.Lemmas.ProllyMergeAddN
+import DoltVerif.Lemmas.ProllyMergeRefute
 import DoltVerif.Props.C13
 /-!
 C14 — Three-way tree merges follow key-wise merge semantics.
@@ -809,14 +810,13 @@ theorem patch_merge_refines_empty_base {cmp : Bytes → Bytes → Ordering} (ol 
     (fun fuel ld h1 => R1_empty_base ol store fuel left hl kl sl ld h1)
     (fun fuel rd h2 => R1_empty_base ol store fuel right hr kr sr rd h2) content ps cs h
 
-/-- **R1_height1 (named hypothesis, the part of R1 asked for last and NOT proved)**: R1 restricted to
-well-formed trees of height ≤ 1 with an arbitrary (non-empty) base.  Proved instances: `R1_leaf` (both trees
-a single leaf), `R1_empty_base` (empty base, any height).  Open: a non-empty base against a root of leaf
-children — needs the analogue of C13's `skipCommon_spec` for `skipCommonVisitingParents` (it climbs to the
-parents without re-seating the children; that both cursors then stand at the START of equal children follows
-only from sortedness), the `lineUp` loop after a modified range (the `from` item may straddle `prevKey`; the
-next range is then sent without comparing), `splitAlign`, and the six kinds of `at` state (modified / added /
-removed × key / range) with their deferred advance in `advanceFromPreviousPatch`. -/
+/-- **R1_height1 (statement only — REFUTED below, `R1_height1_false`)**: R1 restricted to well-formed trees of
+height ≤ 1 with an arbitrary base.  Proved instances: `R1_leaf` (both trees a single leaf), `R1_empty_base`
+(empty base, any height).  For a non-empty base against a root of leaf children it is FALSE for the code as
+transliterated (and the real code behaves the same, design/C14.md "second defect"): after a modified range
+that ends at `to`'s last key, `advanceFromPreviousPatch` sends a removed range although the `from` node
+straddles `previousKey`, and `split` of a removed range does not skip the keys ≤ `previousKey`.  It would hold
+for the repaired `split` (design/C14-dataloss-fix-candidate.diff). -/
 def R1_height1 (cmp : Bytes → Bytes → Ordering) : Prop :=
   ∀ (store : Addr → Option Tree) (fuel : Nat) (base x : Tree) (d : PG),
     base.WF store → x.WF store → base.KeysOK → x.KeysOK → Sorted cmp base.flatten → Sorted cmp x.flatten →
@@ -844,6 +844,24 @@ theorem patch_merge_refines_height1_of_R1h1 {cmp : Bytes → Bytes → Ordering}
   patch_merge_refines_of_gens ol hexact collide store base left right sb sl sr
     (fun fuel ld h1 => r1 store fuel base left ld hb hl kb kl sb sl hhb hhl h1)
     (fun fuel rd h2 => r1 store fuel base right rd hb hr kb kr sb sr hhb hhr h2) content ps cs h
+
+/-- **R1_height1_false** (proved): `R1_height1` fails for the byte order on single-byte keys — witness
+base `[1,2,3,4 | 5,6,7,8]`, x `[1,2,3,4' | 5,6]` (both well-formed, key-consistent, strictly ascending, height
+1): the transliterated generator emits `(_,4]`, `(4,6]`, `(6,8] removed`, and `split` of the last yields
+`removed 5` although key 5 is unchanged, so no invariant satisfies `GenSound` (`Refute.no_genSound`, by
+evaluation of `pgNext` ×3 and `pgSplit`). -/
+theorem R1_height1_false : ¬ R1_height1 Refute.cmpB := by
+  intro r1
+  exact Refute.no_genSound (r1 Refute.store 6 Refute.base Refute.xx Refute.d0 Refute.wf_base Refute.wf_xx
+    Refute.keys_base Refute.keys_xx Refute.sorted_base Refute.sorted_xx Refute.height_base Refute.height_xx Refute.roots)
+
+/-- **R1_GeneratorSound_false** (proved): hence the unrestricted named hypothesis `R1_GeneratorSound` is
+false as stated as well; `patch_merge_refines_of_R1` remains a true implication, and the unconditional
+results are `patch_merge_refines_leaf` and `patch_merge_refines_empty_base`. -/
+theorem R1_GeneratorSound_false : ¬ R1_GeneratorSound Refute.cmpB := by
+  intro r1
+  exact Refute.no_genSound (r1 Refute.store 6 Refute.base Refute.xx Refute.d0 Refute.wf_base Refute.wf_xx
+    Refute.keys_base Refute.keys_xx Refute.sorted_base Refute.sorted_xx Refute.roots)
 
 /-! ### statements that are compared by the harness, not proved -/
 
